@@ -1,5 +1,6 @@
 import LdkModel.Driver.Util
 import LdkModel.Model.Channel
+import LdkModel.Model.ChanPersist
 import LdkModel.Proofs.Channel.Guarded
 import LdkModel.Model.MonGate
 import LdkModel.Model.TxBuilder
@@ -114,6 +115,9 @@ def chan : Drv where
       (match stepG s (.fee (x == "a") (nat! f)) with | none => (some s, "disabled") | some s' => (some s', "ok"))
     | ["disconnect"], some s => ret
       (match stepG s .disconnect with | none => (some s, "disabled") | some s' => (some s', "ok"))
+    -- C01: node x is persisted and reloaded (Model/ChanPersist.lean: `Node.written` over the generated writer tables); the peer pauses
+    | ["restart", x], some s => ret
+      (match stepR s (.restart (x == "a")) with | none => (some s, "disabled") | some s' => (some s', "ok"))
     | ["reest", y], some s => ret
       (match stepG s (.reest (y == "a")) with | none => (some s, "disabled") | some s' => (some s', "ok"))
     | ["dump", x], some s => ret <|
